@@ -179,6 +179,10 @@ func (c *Cluster) WaitConverged(p, r *CNode, names []string, maxHeartbeats int64
 		if PosEqual(p, r, names) {
 			return true, r.Client.Heartbeats.Load() - start, false
 		}
+		if p.Exited() || r.Exited() {
+			// a node called Store.Exit: it is a dead process, nothing will converge
+			return false, r.Client.Heartbeats.Load() - start, false
+		}
 		// livelock: three stream sessions in a row that began after the faults
 		// stopped ended in an error
 		if ss := r.Client.Sessions(); len(ss) >= sess0+4 {
